@@ -14,6 +14,7 @@ import CG.Proofs.VRound
 import CG.Props.C02
 import CG.Proofs.VRoundBeh
 import CG.Proofs.VText
+import CG.Proofs.VRoundBehBBMain
 namespace CG.C03
 open Verilog
 
@@ -114,6 +115,24 @@ theorem roundtrip_behavioral (c : Circuit) (ord ord' : Ord) (hord : OrdOK ord) (
       (∀ v', Consistent c' v' → Consistent c v') ∧
       (∀ v, Consistent c v → ∃ v', Consistent c' v' ∧ ∀ n, c.has n = true → v' n = v n) := by
   exact VB.roundtrip c ord ord' hord hord' hc.wr hnobb hnx
+    (fun p hp h => hns p hp (Or.inr (Or.inr (Or.inr h))))
+
+/-- **C03 (assign style, circuits WITH blackbox instances).** as `roundtrip_behavioral`, for writable circuits that contain
+    blackbox instances (connected or unconnected pins): reading back the behavioural text gives a circuit with the same name,
+    inputs, outputs and registry in which every pin node is present with its type, fan-in and fan-out (the same net on every
+    pin) and which computes the same function on every original node, both directions — for every emission order and every
+    reader order -/
+theorem roundtrip_behavioral_bb (c : Circuit) (ord ord' : Ord) (hord : OrdOK ord) (hord' : OrdOK ord') (hc : Writable c)
+    (hnx : ∀ p ∈ c.nodes, p.2.ty ≠ some "x")
+    (hns : ∀ p ∈ c.nodes, ¬ C02.SyntheticLike p.1) :
+    ∃ wm c', toWModule c true ord = .ok wm ∧ transform wm.toModule (bbDefs c) ord' = .ok c' ∧
+      c'.name = c.name ∧ (∀ x, x ∈ c'.inputs ↔ x ∈ c.inputs) ∧ (∀ x, x ∈ c'.outputs ↔ x ∈ c.outputs) ∧
+      (∀ q, q ∈ c'.bbs ↔ q ∈ c.bbs) ∧
+      (∀ n, (c.ty? n = some "bb_input" ∨ c.ty? n = some "bb_output") →
+          c'.ty? n = c.ty? n ∧ (c'.fanin n).Perm (c.fanin n) ∧ (c'.fanout n).Perm (c.fanout n)) ∧
+      (∀ v', Consistent c' v' → Consistent c v') ∧
+      (∀ v, Consistent c v → ∃ v', Consistent c' v' ∧ ∀ n, c.has n = true → v' n = v n) := by
+  exact VBB.roundtrip c ord ord' hord hord' hc.wr hnx
     (fun p hp h => hns p hp (Or.inr (Or.inr (Or.inr h))))
 
 /-! ### text level: the reader's lexer and parser invert the writer's renderer
